@@ -3,6 +3,8 @@ pub mod regform;
 pub mod alu;
 pub mod memform;
 pub mod mov;
+pub mod bits;
+pub mod ea;
 
 use crate::hv::e1::Case;
 use crate::hv::known::Known;
@@ -12,6 +14,8 @@ pub fn build(id: &str, tier: Tier, seed: u64, known: &[Known]) -> Option<Prop> {
     let mut p = match id {
         "C01" => mov::c01(tier, seed),
         "C02" => alu::c02(tier, seed),
+        "C04" => bits::c04(tier, seed),
+        "C08" => ea::c08(tier, seed),
         "C03" => alu::c03(tier, seed),
         _ => return None,
     };
